@@ -10,8 +10,9 @@ def signalMethods : List String := ["send_signal", "suspend", "resume", "termina
 def cfg : Cfg :=
   { clk := Gen.C01.clockTicks
     goneRaises := Gen.C01.goneRaises
-    bootWriteOnce := Gen.C01.bootWriteOnce
-    createUsesCache := Gen.C01.createUsesCache
+    bootWriteOnce := Gen.C01.bootWriteOnce && Gen.C01.bootStoresElsewhere.isEmpty
+    createUsesCache := Gen.C01.createBoot == "or" || Gen.C01.createBoot == "isNotNone"
+    createNoneTest := Gen.C01.createBoot == "isNotNone"
     guardSignal := signalMethods.all Gen.C01.guardedMethods.contains
     guardNice := Gen.C01.guardedMethods.contains "nice"
     guardIonice := Gen.C01.guardedMethods.contains "ionice"
